@@ -26,7 +26,11 @@ MIN_CASES = 2000
 TRUSTED = ["IEEE-754: on the 'exact' family all quotients/sums of assignCrowdingDist are exact, so the Rat model equals the "
            "float implementation; elsewhere distances are compared with relative tolerance 1e-9 and the cut is replayed on "
            "the implementation's own (float) distances transported exactly",
-           "CPython list.sort/sorted stability and reverse=True semantics (modelled by List.mergeSort with a strict key test)"]
+           "CPython list.sort/sorted stability and reverse=True semantics (modelled by List.mergeSort with a strict key test)",
+           "translator tie: the rendering rules of harness/py2lean_c05.py (its docstring) and lean/DeapModel/Core/GenPreludeC05.lean; the "
+           "parameter / local types of harness/props/c05_translate.py (fitness tuples = lists of an ordered-field scalar, nan/inf outside; "
+           "float('inf') only as the Dist value none; an individual = its fitness.values resp. NDSort.Ind; IndexError / AttributeError not "
+           "rendered: an index outside a list reads `default`)"]
 ASSUMPTIONS = ["an individual is listed once in the population (pop=[a,b,a,c] returns the object a twice: outside 'none twice')",
                "every individual is evaluated, all fitnesses have the same number (>= 1, >= 2 for nd='log') of objectives, finite "
                "values, non-zero weights, k >= 0; individuals and their fitness objects are distinct objects",
@@ -36,6 +40,28 @@ EXPLANATION = ("C05.* are proved for any list of fronts satisfying C04's specifi
                "correspondence ties Core/Crowding.lean to the real assignCrowdingDist/selNSGA2.")
 
 INF = float("inf")
+
+
+def translate(repo):
+    """translator tie (lib._translated_obligations): Lean definitions of isDominated, median, splitA, splitB,
+    assignCrowdingDist and selNSGA2 regenerated from `repo`'s current deap/tools/emo.py (harness/py2lean_c05.py) + the
+    committed theorems `Gen.<f> = <Model>.<f>` of lean/DeapModel/GenEq/C05.lean.tmpl"""
+    from props import c05_translate
+    import json
+    import os
+    import lib
+    tr = c05_translate.translate(repo)
+    try:
+        os.makedirs(os.path.join(lib.OUT, "evidence"), exist_ok=True)
+        with open(os.path.join(lib.OUT, "evidence", "C05.translated.json"), "w") as fh:
+            json.dump({"definitions": len(tr["definitions"]), "theorems": len(tr["theorems"]),
+                       "refused": len(tr["refused"]), "problems": tr["problems"],
+                       "functions": [dict(file=f, name=n, status=st, detail=d) for f, n, st, d in tr["table"]],
+                       "theorem_names": tr["theorems"]}, fh, indent=1)
+            fh.write("\n")
+    except OSError:
+        pass
+    return tr
 
 
 def sfr(q):
